@@ -472,7 +472,19 @@ func runC13(t *T) {
 		sort.Strings(fnames)
 		repeated = fnames[c.Draw(len(fnames))]
 		var2 = uniqueData(40, []int{small + 1, 2*small + 5, big + 1, 100}[c.Weighted(3, 3, 1, 1)])
-		sp.entries = append(sp.entries, tarEntry{name: repeated, spell: spellName(t, repeated, false), perm: 0644, data: var2})
+		dup := tarEntry{name: repeated, spell: spellName(t, repeated, false), perm: 0644, data: var2}
+		if c.Chance(1, 2) {
+			sp.entries = append(sp.entries, dup) // appended, as tar -r does
+		} else {
+			// right behind the earlier copy: the one position where that copy's background writer is most likely
+			// still on its way
+			for i, e := range sp.entries {
+				if e.name == repeated && !e.dir {
+					sp.entries = append(sp.entries[:i+1], append([]tarEntry{dup}, sp.entries[i+1:]...)...)
+					break
+				}
+			}
+		}
 		t.Stat("c13:repeated-member")
 	}
 	data := sp.archive(t)
